@@ -118,6 +118,16 @@ type Flow struct {
 	Exit    Facts // facts at the implicit end of the body (nil if unreachable)
 	depth   int
 	memo    map[*types.Func]Facts
+
+	// virtual inlining of small same-package helpers (extract-method robustness)
+	NoInline  bool
+	OnInline  func(callee *FuncBody, param *types.Var, arg ast.Expr) // lets a rule extend alias sets
+	entry     Facts
+	root      *Flow
+	stack     []*types.Func
+	inlineRet map[*ast.CallExpr]string // helper call -> label of the call whose error it returns on every path
+	inlineRets map[*ast.CallExpr][]string // per result position
+	Inlined   map[*types.Func]bool
 }
 
 func NewFlow(p *Prog, fb *FuncBody, label Labeler) *Flow {
@@ -146,6 +156,15 @@ func (m *Flow) Run() *Flow {
 	m.info = m.FB.Info()
 	m.At = map[ast.Node]Facts{}
 	m.Labels = map[*ast.CallExpr]string{}
+	if m.inlineRet == nil {
+		m.inlineRet = map[*ast.CallExpr]string{}
+	}
+	if m.inlineRets == nil {
+		m.inlineRets = map[*ast.CallExpr][]string{}
+	}
+	if m.Inlined == nil {
+		m.Inlined = map[*types.Func]bool{}
+	}
 	if m.memo == nil {
 		m.memo = map[*types.Func]Facts{}
 	}
@@ -171,6 +190,9 @@ func (m *Flow) Run() *Flow {
 	n := len(m.g.Blocks)
 	in := make([]Facts, n)
 	in[0] = Facts{}
+	if m.entry != nil {
+		in[0] = m.entry.clone()
+	}
 	type edge struct{ from, to int32 }
 	out := map[edge]Facts{}
 	preds := map[int32][]int32{}
@@ -435,11 +457,31 @@ func (m *Flow) assign(lhs, rhs []ast.Expr, st Facts) {
 	}
 	if len(rhs) == 1 {
 		if call, ok := ast.Unparen(rhs[0]).(*ast.CallExpr); ok {
-			if l := m.labelOf(call, st); l != "" {
+			if ls := m.inlineRets[call]; len(ls) == len(lhs) && m.Label(call, typeutil.Callee(m.info, call)) == "" {
+				for i, lx := range lhs {
+					if id, ok := lx.(*ast.Ident); ok && id.Name != "_" && ls[i] != "" {
+						if v, ok := m.obj(id).(*types.Var); ok {
+							st[defPrefix(v)+ls[i]] = true
+						}
+					}
+				}
+			} else if l := m.labelOf(call, st); l != "" {
 				for _, lx := range lhs {
 					if id, ok := lx.(*ast.Ident); ok && id.Name != "_" {
 						if v, ok := m.obj(id).(*types.Var); ok {
 							st[defPrefix(v)+l] = true
+						}
+					}
+				}
+			}
+		}
+		// x := !call(): remembered with inverted polarity
+		if u, ok := ast.Unparen(rhs[0]).(*ast.UnaryExpr); ok && u.Op == token.NOT && len(lhs) == 1 {
+			if call, ok := ast.Unparen(u.X).(*ast.CallExpr); ok {
+				if l := m.labelOf(call, st); l != "" {
+					if id, ok := lhs[0].(*ast.Ident); ok && id.Name != "_" {
+						if v, ok := m.obj(id).(*types.Var); ok {
+							st[defPrefix(v)+"!"+l] = true
 						}
 					}
 				}
@@ -484,6 +526,9 @@ func (m *Flow) labelOf(call *ast.CallExpr, st Facts) string {
 	if l := m.Label(call, callee); l != "" {
 		return l
 	}
+	if l := m.inlineRet[call]; l != "" {
+		return l
+	}
 	if _, isVar := callee.(*types.Var); callee == nil || isVar {
 		if id, ok := ast.Unparen(call.Fun).(*ast.Ident); ok {
 			if v, ok := m.obj(id).(*types.Var); ok {
@@ -525,6 +570,8 @@ func (m *Flow) calls(node ast.Node, st Facts, rec bool) {
 				if m.Effect != nil {
 					m.Effect(l, x, st)
 				}
+			} else if fb2 := m.inlinable(x); fb2 != nil {
+				m.inlineCall(x, fb2, st, rec)
 			} else if m.Inline && m.depth < 2 {
 				if fn, ok := typeutil.Callee(m.info, x).(*types.Func); ok {
 					for k := range m.summary(fn) {
@@ -730,7 +777,11 @@ func (m *Flow) condFacts(cond ast.Expr, st Facts) (t, f Facts) {
 		}
 	}
 	if key := m.atomKey(cond, st); key != "" {
-		t["true:"+key], f["false:"+key] = true, true
+		if strings.HasPrefix(key, "!") {
+			t["false:"+key[1:]], f["true:"+key[1:]] = true, true
+		} else {
+			t["true:"+key], f["false:"+key] = true, true
+		}
 	}
 	return t, f
 }
@@ -797,4 +848,166 @@ func fieldKey(info *types.Info, x *ast.SelectorExpr) string {
 		return "pkgvar:" + v.Pkg().Name() + "." + v.Name()
 	}
 	return ""
+}
+
+// inlinable: the call goes to a small declared function of the same package that is not an event of the rule.
+func (m *Flow) inlinable(call *ast.CallExpr) *FuncBody {
+	if m.NoInline || m.depth >= 2 {
+		return nil
+	}
+	fn, ok := typeutil.Callee(m.info, call).(*types.Func)
+	if !ok {
+		return nil
+	}
+	fb := m.P.DeclOf(fn)
+	if fb == nil || fb.Pkg != m.FB.Pkg || fb == m.FB.Root() {
+		return nil
+	}
+	for _, f := range m.stack {
+		if f == fn {
+			return nil
+		}
+	}
+	n := 0
+	ast.Inspect(fb.Body, func(nd ast.Node) bool {
+		if _, ok := nd.(ast.Stmt); ok {
+			n++
+		}
+		return true
+	})
+	if n > 80 {
+		return nil
+	}
+	return fb
+}
+
+// inlineCall analyses the helper's body in the caller's current state and continues with the meet of its exits.
+func (m *Flow) inlineCall(call *ast.CallExpr, fb *FuncBody, st Facts, rec bool) {
+	root := m.root
+	if root == nil {
+		root = m
+	}
+	sub := &Flow{P: m.P, FB: fb, Label: m.Label, Effect: m.Effect, RecvLabel: m.RecvLabel, AssignEffect: m.AssignEffect, AssignHook: m.AssignHook,
+		OnInline: m.OnInline, depth: m.depth + 1, root: root, stack: append(append([]*types.Func(nil), m.stack...), fb.Obj), inlineRet: root.inlineRet, inlineRets: root.inlineRets, Inlined: root.Inlined, memo: m.memo}
+	entry := st.clone()
+	// parameter bindings
+	i := 0
+	finfo := fb.Info()
+	for _, fld := range fb.Type.Params.List {
+		for _, id := range fld.Names {
+			if i < len(call.Args) {
+				if pv, ok := finfo.Defs[id].(*types.Var); ok {
+					arg := call.Args[i]
+					if aid, ok := ast.Unparen(arg).(*ast.Ident); ok {
+						if av, ok := m.obj(aid).(*types.Var); ok {
+							if l := m.defOf(av, st); l != "" {
+								entry[defPrefix(pv)+l] = true
+							}
+						}
+					}
+					if m.OnInline != nil {
+						m.OnInline(fb, pv, arg)
+					}
+				}
+			}
+			i++
+		}
+	}
+	sub.entry = entry
+	sub.Run()
+	root.Inlined[fb.Obj] = true
+	if rec {
+		for n, f := range sub.At {
+			root.At[n] = meet(root.At[n], f)
+			if m != root {
+				m.At[n] = meet(m.At[n], f)
+			}
+		}
+		for c, l := range sub.Labels {
+			root.Labels[c] = l
+			m.Labels[c] = l
+		}
+	}
+	// exit state and, per result position, the label of the call whose result the helper returns on every path
+	var exit Facts
+	var labels []string
+	var uniform []bool
+	for _, r := range sub.Returns {
+		fs := sub.At[r]
+		exit = meet(exit, fs)
+		if len(r.Results) == 0 {
+			continue
+		}
+		if labels == nil {
+			labels = make([]string, len(r.Results))
+			uniform = make([]bool, len(r.Results))
+			for i := range uniform {
+				uniform[i] = true
+			}
+		}
+		if len(r.Results) != len(labels) {
+			// `return f()` forwarding a tuple
+			if call, ok := ast.Unparen(r.Results[0]).(*ast.CallExpr); ok && len(r.Results) == 1 {
+				l := sub.Labels[call]
+				for i := range labels {
+					if l == "" || (labels[i] != "" && labels[i] != l) {
+						uniform[i] = false
+					}
+					if labels[i] == "" {
+						labels[i] = l
+					}
+				}
+			}
+			continue
+		}
+		for i, re := range r.Results {
+			res := ast.Unparen(re)
+			l := ""
+			switch x := res.(type) {
+			case *ast.CallExpr:
+				l = sub.Labels[x]
+				if l == "" {
+					l = root.inlineRet[x]
+				}
+			case *ast.Ident:
+				if isNilExpr(finfo, x) {
+					continue // `return nil` does not contradict "returns L's result"
+				}
+				if v, ok := finfo.Uses[x].(*types.Var); ok {
+					l = sub.defOf(v, fs)
+				}
+			}
+			if l == "" || (labels[i] != "" && l != labels[i]) {
+				uniform[i] = false
+			}
+			if labels[i] == "" {
+				labels[i] = l
+			}
+		}
+	}
+	if labels != nil {
+		out := make([]string, len(labels))
+		any := false
+		for i := range labels {
+			if uniform[i] && labels[i] != "" {
+				out[i] = labels[i]
+				any = true
+			}
+		}
+		if any {
+			root.inlineRets[call] = out
+			if out[len(out)-1] != "" {
+				root.inlineRet[call] = out[len(out)-1]
+			}
+		}
+	}
+	if exit == nil {
+		exit = Facts{} // helper never returns normally
+	}
+	for k := range st {
+		delete(st, k)
+	}
+	for k := range exit {
+		st[k] = true
+	}
 }
